@@ -128,10 +128,33 @@ class C04(PropCheck):
             if tuple(levels) in seen:
                 continue
             seen.add(tuple(levels))
-            out.append({"k": "stack", "levels": levels, "qseed": rng.randrange(1 << 30)})
+            out.append({"k": "stack", "levels": levels, "qseed": rng.randrange(1 << 30), "hostile": len(out) % 5 == 0})
         return out
 
     def run_real(self, case):
+        if not case.get("hostile"):
+            return self.run_real_inner(case)
+        # environment: sys.modules holds an entry whose attribute access fails with something other than AttributeError (a module
+        # imported lazily with importlib.util.LazyLoader whose real import fails: optional extension missing).  It appears just
+        # before the extraction, so the glue scan that precedes every extraction meets it.
+        import sys
+        import types
+
+        class Lazy(types.ModuleType):
+            def __getattribute__(self, name):
+                if name in ("__dict__", "_stackscope_install_glue_") or not name.startswith("__"):
+                    raise ModuleNotFoundError("No module named 'optional_extension' (lazy import failed)")
+                return super().__getattribute__(name)
+
+        C04._hostile_n = getattr(C04, "_hostile_n", 0) + 1
+        name = f"verif_c04_lazy_{C04._hostile_n}"
+        sys.modules[name] = Lazy(name)
+        try:
+            return self.run_real_inner(case)
+        finally:
+            sys.modules.pop(name, None)
+
+    def run_real_inner(self, case):
         import stackscope
         from stackscope import StackSlice
 
